@@ -400,6 +400,10 @@ def run(tier, seed):
                 chk.violation(f"a {kind} credential record that was verified before and then given the fields of another ceremony is judged differently from a fresh record with the same fields: {got[:50]} instead of {want[:50]}",
                               f"record-object-reuse {kind}", {"history": trace, "reused_record_outcome": got, "fresh_record_outcome": want})
                 break
+    # "the clock" is the clock at the time of the call - not at import, first use or any earlier call: a certificate that becomes valid (another that expires) while this
+    # process runs changes verdict accordingly (real clock, nothing substituted)
+    from harness import realclock
+    realclock.boundary_crossed_while_running(chk)
     # new public API of the changed source (if any), used or abused, must not change what the existing entry points do
     probe_specs = [s_ for s_ in pool if s_[1] in ("auth", "reg") and s_[0].endswith(("/None", "/ok", "/signed-by-other-key", "/fault", "/challenge-other"))][:14]
     def _probe():
